@@ -111,6 +111,13 @@ def scope_family() -> list[tuple[str, str, list]]:
     add("helper-uses-pot", 'pot = Potentiometer("A0")\ndef level():\n    return pot.read()\nwhile True:\n    mon.write(level())\n')
     add("helper-uses-ultrasonic", "us = Ultrasonic(trig=7, echo=8)\ndef dist():\n    return us.measure_distance()\nwhile True:\n    mon.write(dist())\n", ["ultrasonic-in-helper"])
     add("helper-with-list-param", "def total(xs):\n    t = 0\n    for i in range(len(xs)):\n        t += xs[i]\n    return t\nv = [1, 2, 3]\nmon.write(total(v))\n", ["list-parameter"])
+    # helper variants: bodies that re-type / pass on their parameter x call sites of different argument types and orders
+    bodies = {"ident": "    return x\n", "retype-div": "    x = x / 2\n    return x\n", "retype-mul": "    x = x * 1.5\n    return x\n",
+              "local": "    t = x + 1\n    return t\n", "branch": "    if x > 1:\n        return x\n    return 0\n"}
+    orders = {"fi": ["2.5", "4"], "if": ["4", "2.5"], "iif": ["4", "7", "2.5"], "ffi": ["2.5", "0.5", "4"], "ii": ["4", "7"], "ff": ["2.5", "0.5"]}
+    for bn, body in bodies.items():
+        for on, args in orders.items():
+            add(f"variant-{bn}-{on}", f"def hv(x):\n{body}" + "".join(f"mon.write(hv({a}))\n" for a in args))
     add("helper-returns-list", "def mk():\n    return [1, 2, 3]\nv = mk()\nmon.write(v[1])\n")
     add("helper-returns-string", 'def tag(n):\n    return f"id:{n}"\nmon.write(tag(3))\n')
     add("button-handler", 'def hit():\n    mon.write("hit")\nbtn = Button(7, on_click=hit)\nwhile True:\n    mon.write(btn.is_pressed())\n')
